@@ -22,6 +22,7 @@ type PodTruth struct {
 	Gone     *time.Time
 	GoneBy   string
 	DelReq   *time.Time // deletionTimestamp first requested at
+	DelBy    string     // who requested the deletion
 	Script   PodScript
 }
 
@@ -48,6 +49,9 @@ func (w *World) startKubelet() {
 		case "MODIFIED":
 			old := ev.Old.(*corev1.Pod)
 			if old.DeletionTimestamp == nil && pod.DeletionTimestamp != nil {
+				if t := k.ByUID[string(pod.UID)]; t != nil && t.DelBy == "" {
+					t.DelBy = ev.Actor
+				}
 				k.onDeleting(pod)
 			}
 		case "DELETED":
@@ -139,8 +143,8 @@ func (k *Kubelet) onAdded(pod *corev1.Pod) {
 		s.After(ms(sc.RunMs), tag+" run", func() {
 			started := metav1.NewTime(s.Now())
 			ok := k.mutate(t, "run", func(p *corev1.Pod) {
-				if p.DeletionTimestamp != nil {
-					return
+				if p.DeletionTimestamp != nil && sc.TermMs >= 0 && sc.TermMs < 30000 {
+					return // a responsive kubelet does not start a Pod that is being deleted
 				}
 				p.Status.Phase = corev1.PodRunning
 				p.Status.ContainerStatuses = []corev1.ContainerStatus{{Name: "c", ContainerID: "cri://" + t.UID,
